@@ -224,3 +224,237 @@ Proof.
   rewrite !resolve_extensions_map, map_hugr_map_hugr. apply map_hugr_ext.
   apply Forall_forall. intros [n|] _; [|trivial]. apply resolve_hop_idem_both.
 Qed.
+
+(* ------------------------------------------------------------------ Hugr._to_serial and a rewriting of the operations *)
+(* stated for any encoder `enc`, any port-count function and any rewriting g of the operations: when g keeps the
+   dataflow port counts and relates the encoded operations by R, the documents of h and of h with its operations
+   rewritten both exist or both fail, have the same edges and metadata, and their node lists are related
+   position by position (same parent, operations related by R) *)
+Definition orel {A B} (R : A -> B -> Prop) (x : option A) (y : option B) : Prop :=
+  match x, y with Some a, Some b => R a b | None, None => True | _, _ => False end.
+
+Lemma mapM_rel {A B C} (R : B -> C -> Prop) (f : A -> option B) (g : A -> option C) l :
+  Forall (fun x => orel R (f x) (g x)) l -> orel (Forall2 R) (mapM f l) (mapM g l).
+Proof.
+  induction 1 as [|x l Hx _ IH]; cbn; [constructor|].
+  destruct (f x), (g x); cbn in Hx; try contradiction; [|exact I].
+  destruct (mapM f l), (mapM g l); cbn in *; try contradiction; auto.
+Qed.
+Lemma mapM_ext {A B} (f g : A -> option B) l : Forall (fun x => f x = g x) l -> mapM f l = mapM g l.
+Proof. induction 1 as [|x l Hx _ IH]; cbn; [reflexivity|]. now rewrite Hx, IH. Qed.
+
+Section ToSerialMap.
+  Context {A B S S' M : Type}.
+  Variables (enc : A -> S) (enc' : B -> S') (ndp : A -> dir -> option nat) (ndp' : B -> dir -> option nat)
+            (nil : M -> bool) (g : A -> B) (R : S -> S' -> Prop).
+  Definition snode_rel (a : snode S) (b : snode S') : Prop := s_parent b = s_parent a /\ R (s_op a) (s_op b).
+  Definition serial_rel (s : serial S M) (s' : serial S' M) : Prop :=
+    s_edges s' = s_edges s /\ s_meta s' = s_meta s /\ Forall2 snode_rel (s_nodes s) (s_nodes s').
+  Variable h : hugr A M.
+  Hypothesis Hn :
+    Forall (fun x => match x with
+                     | Some n => (forall d, ndp' (g (n_op n)) d = ndp (n_op n) d) /\ R (enc (n_op n)) (enc' (g (n_op n)))
+                     | None => True
+                     end) (h_nodes h).
+
+  Lemma get_node_In i n : get_node h i = Some n -> In (Some n) (h_nodes h).
+  Proof.
+    unfold get_node. destruct (nth_error (h_nodes h) i) as [[m|]|] eqn:E; try discriminate.
+    intros H; injection H as ->. eapply nth_error_In; eauto.
+  Qed.
+  Lemma constrain_map p d : constrain B M ndp' (map_hugr g h) p d = constrain A M ndp h p d.
+  Proof.
+    unfold constrain. destruct (snd p); [|reflexivity]. rewrite get_node_map.
+    destruct (get_node h (fst p)) as [n|] eqn:E; cbn; [|reflexivity].
+    apply get_node_In in E. rewrite Forall_forall in Hn. specialize (Hn _ E). cbn in Hn. destruct Hn as [-> _].
+    reflexivity.
+  Qed.
+  Lemma ser_link_map l : ser_link B M ndp' (map_hugr g h) l = ser_link A M ndp h l.
+  Proof. unfold ser_link. now rewrite !constrain_map, !rekey_map. Qed.
+  Lemma ser_node_map i : orel snode_rel (ser_node A S M enc h i) (ser_node B S' M enc' (map_hugr g h) i).
+  Proof.
+    unfold ser_node. rewrite get_node_map. destruct (get_node h i) as [n|] eqn:E; cbn [option_map]; [|exact I].
+    rewrite rekey_map. cbn [map_node n_parent n_op]. destruct (rekey h _); cbn; [|exact I]. split; [reflexivity|].
+    apply get_node_In in E. rewrite Forall_forall in Hn. apply (Hn _ E).
+  Qed.
+  Lemma meta_of_map l : meta_of B M nil (map (option_map (map_node g)) l) = meta_of A M nil l.
+  Proof. induction l as [|[n|] l IH]; cbn; [reflexivity| |]; now rewrite IH. Qed.
+
+  Lemma to_serial_map : orel serial_rel (to_serial enc ndp nil h) (to_serial enc' ndp' nil (map_hugr g h)).
+  Proof.
+    unfold to_serial. rewrite live_map.
+    assert (E : mapM (ser_link B M ndp' (map_hugr g h)) (h_links (map_hugr g h)) = mapM (ser_link A M ndp h) (h_links h)).
+    { cbn [map_hugr h_links]. apply mapM_ext. apply Forall_forall. intros; apply ser_link_map. }
+    rewrite E.
+    assert (Hm : orel (Forall2 snode_rel) (mapM (ser_node A S M enc h) (live h))
+                      (mapM (ser_node B S' M enc' (map_hugr g h)) (live h))).
+    { apply mapM_rel. apply Forall_forall. intros; apply ser_node_map. }
+    destruct (mapM (ser_node A S M enc h) (live h)), (mapM (ser_node B S' M enc' (map_hugr g h)) (live h));
+      cbn in Hm; try contradiction; [|exact I].
+    destruct (mapM (ser_link A M ndp h) (h_links h)); cbn; [|exact I].
+    repeat split; [|exact Hm]. cbn. now rewrite meta_of_map.
+  Qed.
+End ToSerialMap.
+
+(* the structural form used in ser_val is Hugr._to_serial with the encoder ser_hop *)
+Lemma to_serial_paired {A S M} (enc : A -> S) ndp nil (h : hugr A M) :
+  to_serial (@snd A S) (fun p => ndp (fst p)) nil (map_hugr (fun o => (o, enc o)) h) = to_serial enc ndp nil h.
+Proof.
+  assert (H : orel (serial_rel eq) (to_serial enc ndp nil h)
+                   (to_serial (@snd A S) (fun p => ndp (fst p)) nil (map_hugr (fun o => (o, enc o)) h))).
+  { apply to_serial_map. apply Forall_forall. intros [n|] _; cbn; auto. }
+  destruct (to_serial enc ndp nil h) as [s|];
+    destruct (to_serial (@snd A S) (fun p => ndp (fst p)) nil (map_hugr (fun o => (o, enc o)) h)) as [s'|];
+    cbn in H; try contradiction; [|reflexivity].
+  destruct H as (He & Hm & Hn). destruct s as [n e m], s' as [n' e' m']; cbn in *. subst. f_equal. f_equal.
+  clear -Hn. induction Hn as [|a b l l' [Hp Ho] _ IH]; [reflexivity|]. destruct a, b; cbn in *; subst. reflexivity.
+Qed.
+Lemma ser_val_func_eq b :
+  ser_val (VFunc b) = match to_serial ser_hop hop_ndp md_is_nil b with
+                      | Some d => option_map SVFunc (seq_serial d)
+                      | None => None
+                      end.
+Proof. cbn [ser_val]. now rewrite (to_serial_paired ser_hop hop_ndp md_is_nil b). Qed.
+
+(* ------------------------------------------------------------------ (c) the serialised document *)
+Definition Ropt {A B} (R : A -> B -> Prop) (x : option A) (y : option B) : Prop :=
+  forall s, x = Some s -> exists s', y = Some s' /\ R s s'.
+
+Lemma seq_nodes_rel {S S'} (R : S -> S' -> Prop) (l : list (snode (option S))) (l' : list (snode (option S'))) :
+  Forall2 (snode_rel (Ropt R)) l l' -> forall ns, omap seq_snode l = Some ns ->
+  exists ns', omap seq_snode l' = Some ns' /\ Forall2 (snode_rel R) ns ns'.
+Proof.
+  induction 1 as [|a b l l' [Hp Ho] _ IH]; cbn; intros ns Hs.
+  - injection Hs as <-. exists []. split; [reflexivity|constructor].
+  - unfold seq_snode at 1 in Hs. destruct (s_op a) as [oa|] eqn:Ea; [|discriminate].
+    destruct (omap seq_snode l) as [r|]; [|discriminate]. injection Hs as <-.
+    destruct (Ho _ eq_refl) as [ob [Eb Hr]]. destruct (IH _ eq_refl) as [r' [Er' Hrr]].
+    unfold seq_snode at 1. rewrite Eb, Er'. eexists. split; [reflexivity|]. constructor; [|exact Hrr].
+    split; cbn; auto.
+Qed.
+Lemma seq_serial_rel {S S' M} (R : S -> S' -> Prop) (d : serial (option S) M) (d' : serial (option S') M) s :
+  serial_rel (Ropt R) d d' -> seq_serial d = Some s ->
+  exists s', seq_serial d' = Some s' /\ serial_rel R s s'.
+Proof.
+  intros (He & Hm & Hn). unfold seq_serial. destruct (omap seq_snode (s_nodes d)) as [ns|] eqn:E; [|discriminate].
+  intros Hs. injection Hs as <-. destruct (seq_nodes_rel R _ _ Hn _ E) as [ns' [E' Hr]]. rewrite E'.
+  eexists. split; [reflexivity|]. repeat split; cbn; auto.
+Qed.
+
+Lemma resolve_hop_ndp reg o d : hop_ndp (resolve_hop reg o) d = hop_ndp o d.
+Proof.
+  destruct o as [[c|x|k]|k a b l|v]; cbn; try reflexivity.
+  unfold resolve_custom. destruct (lookup_op reg (c_ext c) (c_name c)); cbn; [|reflexivity].
+  destruct d; now rewrite map_length.
+Qed.
+
+Lemma omap_rel {A B C} (R : B -> C -> Prop) (f : A -> option B) (g : A -> option C) l :
+  Forall (fun x => Ropt R (f x) (g x)) l -> Ropt (Forall2 R) (omap f l) (omap g l).
+Proof.
+  induction 1 as [|x l Hx _ IH]; intros s Hs; cbn in *.
+  - injection Hs as <-. exists []. split; [reflexivity|constructor].
+  - destruct (f x) as [y|] eqn:Ey; [|discriminate]. destruct (omap f l) as [ys|] eqn:Eys; [|discriminate].
+    injection Hs as <-. destruct (Hx _ eq_refl) as [y' [Ey' Hy]]. destruct (IH _ eq_refl) as [ys' [Eys' Hys]].
+    rewrite Ey', Eys'. eexists. split; [reflexivity|]. now constructor.
+Qed.
+
+Lemma resolve_ser_hop_both reg : RegWF reg ->
+  (forall o, hop_all (consistent_op reg) o = true -> Ropt (SameSop reg) (ser_hop o) (ser_hop (resolve_hop reg o))) /\
+  (forall v, cval_all (consistent_op reg) v = true -> Ropt (SameSval reg) (ser_val v) (ser_val (resolve_val reg v))).
+Proof.
+  intros Hwf. apply hop_both_ind.
+  - intros o Hc s Hs. cbn [hop_all] in Hc. cbn [ser_hop resolve_hop] in *.
+    destruct (ser_op o) as [so|] eqn:Eo; [|discriminate]. injection Hs as <-.
+    destruct (resolve_op_ser _ _ _ Hwf Hc Eo) as [so' [Eso' Hr]]. rewrite Eso'. eexists. split; [reflexivity|].
+    now constructor.
+  - intros k a b l _ s Hs. exists s. split; [exact Hs|]. cbn in Hs. injection Hs as <-. constructor.
+  - intros v IH Hc s Hs. cbn [hop_all] in Hc. cbn [ser_hop resolve_hop] in *.
+    destruct (ser_val v) as [sv|] eqn:Ev; [|discriminate]. injection Hs as <-.
+    destruct (IH Hc _ eq_refl) as [sv' [Esv' Hr]]. rewrite Esv'. eexists. split; [reflexivity|]. now constructor.
+  - intros b IH Hc s Hs. rewrite cval_all_func, forallb_Forall in Hc. cbn [resolve_val].
+    rewrite ser_val_func_eq in *.
+    assert (H : orel (serial_rel (Ropt (SameSop reg))) (to_serial ser_hop hop_ndp md_is_nil b)
+                     (to_serial ser_hop hop_ndp md_is_nil (map_hugr (resolve_hop reg) b))).
+    { apply to_serial_map. eapply Forall_impl2; [|exact IH|exact Hc]. intros [n|]; cbn; [|trivial].
+      intros HP Hcn. split; [intros d; apply resolve_hop_ndp|auto]. }
+    destruct (to_serial ser_hop hop_ndp md_is_nil b) as [d|]; [|discriminate].
+    destruct (to_serial ser_hop hop_ndp md_is_nil (map_hugr (resolve_hop reg) b)) as [d'|]; cbn in H; [|contradiction].
+    destruct (seq_serial d) as [sd|] eqn:Ed; [|discriminate]. injection Hs as <-.
+    destruct (seq_serial_rel _ _ _ _ H Ed) as [sd' [Ed' (He & Hm & Hn)]]. rewrite Ed'. eexists. split; [reflexivity|].
+    now constructor.
+  - intros k vs IH Hc s Hs. rewrite cval_all_sum, forallb_Forall in Hc. cbn [ser_val resolve_val] in *.
+    destruct (omap ser_val vs) as [l|] eqn:El; [|discriminate]. injection Hs as <-.
+    rewrite omap_map.
+    assert (H : Ropt (Forall2 (SameSval reg)) (omap ser_val vs) (omap (fun x => ser_val (resolve_val reg x)) vs)).
+    { apply omap_rel. eapply Forall_impl2; [|exact IH|exact Hc]. auto. }
+    destruct (H _ El) as [l' [El' Hr]]. rewrite El'. eexists. split; [reflexivity|]. now constructor.
+  - intros k _ s Hs. exists s. split; [exact Hs|]. cbn in Hs. injection Hs as <-. constructor.
+Qed.
+
+Lemma resolve_doc reg h s : RegWF reg -> consistent_hugr reg h = true -> hugr_doc h = Some s ->
+  exists s', hugr_doc (resolve_extensions reg h) = Some s' /\ SameDoc reg s s'.
+Proof.
+  intros Hwf Hc Hs. rewrite resolve_extensions_map. unfold hugr_doc in *.
+  unfold consistent_hugr, hugr_all in Hc. rewrite forallb_Forall in Hc.
+  assert (H : orel (serial_rel (Ropt (SameSop reg))) (to_serial ser_hop hop_ndp md_is_nil h)
+                   (to_serial ser_hop hop_ndp md_is_nil (map_hugr (resolve_hop reg) h))).
+  { apply to_serial_map. eapply Forall_impl; [|exact Hc]. intros [n|]; cbn; [|trivial].
+    intros Hcn. split; [intros d; apply resolve_hop_ndp|]. now apply resolve_ser_hop_both. }
+  destruct (to_serial ser_hop hop_ndp md_is_nil h) as [d|]; [|discriminate].
+  destruct (to_serial ser_hop hop_ndp md_is_nil (map_hugr (resolve_hop reg) h)) as [d'|]; cbn in H; [|contradiction].
+  destruct (seq_serial_rel _ _ _ _ H Hs) as [sd' [Ed' Hr]]. exists sd'. split; [exact Ed'|exact Hr].
+Qed.
+
+(* ------------------------------------------------------------------ (d) port types *)
+Lemma op_out_type_resolve reg o k :
+  op_out_type (resolve_hop reg o) k = op_out_type o k \/
+  (exists c, o = HOp (OCustom c) /\ lookup_op reg (c_ext c) (c_name c) <> None /\
+             op_out_type (resolve_hop reg o) k = option_map (resolve_ty reg) (op_out_type o k)).
+Proof.
+  destruct o as [[c|x|j]|j a b l|v]; cbn; auto.
+  unfold resolve_custom. destruct (lookup_op reg (c_ext c) (c_name c)) as [d|] eqn:E; cbn; auto.
+  right. exists c. rewrite E. split; [reflexivity|]. split; [discriminate|]. apply nth_error_map.
+Qed.
+Lemma port_type_resolve reg h i k :
+  port_type (resolve_extensions reg h) i k = port_type h i k \/
+  (exists n c, get_node h i = Some n /\ n_op n = HOp (OCustom c) /\ lookup_op reg (c_ext c) (c_name c) <> None /\
+               port_type (resolve_extensions reg h) i k = option_map (resolve_ty reg) (port_type h i k)).
+Proof.
+  unfold port_type. rewrite resolve_node_at. destruct (get_node h i) as [n|]; cbn; auto.
+  destruct (op_out_type_resolve reg (n_op n) k) as [E|(c & Ec & Hl & E)]; auto. right. exists n, c. auto.
+Qed.
+Lemma port_type_related reg h i k : RegWF reg ->
+  port_type_rel reg (port_type h i k) (port_type (resolve_extensions reg h) i k).
+Proof.
+  intros Hwf. destruct (port_type_resolve reg h i k) as [E|(n & c & _ & _ & _ & E)]; [now left|].
+  destruct (port_type h i k) as [t|]; cbn in E; [|now left]. right. exists t, (resolve_ty reg t).
+  repeat split; auto. now apply resolve_pointwise.
+Qed.
+Lemma port_type_untouched reg h i n k : get_node h i = Some n -> hop_all (untouchable_op reg) (n_op n) = true ->
+  port_type (resolve_extensions reg h) i k = port_type h i k.
+Proof.
+  intros E H. unfold port_type. rewrite resolve_node_at, E. cbn.
+  now rewrite (proj1 (resolve_untouchable_both reg) _ H).
+Qed.
+Lemma port_type_consistent reg h i k t : consistent_hugr reg h = true -> port_type h i k = Some t ->
+  port_type (resolve_extensions reg h) i k = Some t \/ consistent reg t = true.
+Proof.
+  intros Hc Ht. destruct (port_type_resolve reg h i k) as [E|(n & c & En & Ec & _ & _)]; [left; congruence|]. right.
+  unfold consistent_hugr, hugr_all in Hc. rewrite forallb_forall in Hc.
+  assert (Hin : In (Some n) (h_nodes h)).
+  { unfold get_node in En. destruct (nth_error (h_nodes h) i) as [[m|]|] eqn:E; try discriminate.
+    injection En as ->. eapply nth_error_In; eauto. }
+  specialize (Hc _ Hin). cbn in Hc. rewrite Ec in Hc. cbn in Hc. apply andb_true_iff in Hc as [Hf _].
+  unfold consistent_ft in Hf. apply andb_true_iff in Hf as [_ Ho]. rewrite forallb_forall in Ho. apply Ho.
+  unfold port_type in Ht. rewrite En, Ec in Ht. cbn in Ht. eapply nth_error_In; eauto.
+Qed.
+Lemma port_type_facts reg h i k : RegWF reg -> consistent_hugr reg h = true ->
+  option_map tbound (port_type (resolve_extensions reg h) i k) = option_map tbound (port_type h i k) /\
+  option_map ser_ty (port_type (resolve_extensions reg h) i k) = option_map ser_ty (port_type h i k).
+Proof.
+  intros Hwf Hc. destruct (port_type h i k) as [t|] eqn:Et.
+  - destruct (port_type_consistent _ _ _ _ _ Hc Et) as [E|Ht]; [rewrite E; auto|].
+    destruct (port_type_resolve reg h i k) as [E|(n & c & _ & _ & _ & E)]; rewrite E, ?Et; auto. cbn.
+    now rewrite (resolve_bound _ _ Ht), (resolve_ser _ _ Hwf Ht).
+  - destruct (port_type_resolve reg h i k) as [E|(n & c & _ & _ & _ & E)]; rewrite E, ?Et; auto.
+Qed.
